@@ -477,7 +477,11 @@ def run_check(prop, tier, seed, only=None, budget=None, jobs_max=None):
         pp["distinct_nontrivial"] = sum(1 for d in digs if d.startswith(part + ":"))
     fin = getattr(mod, "finalize", None)
     if fin is not None and not errors and not budget_exhausted:
-        fv, fd = fin(tier, classes)
+        import inspect
+        if len(inspect.signature(fin).parameters) >= 3:
+            fv, fd = fin(tier, classes, {"kf_hits": dict(kf_hits), "parts": per_part})
+        else:
+            fv, fd = fin(tier, classes)
         violations += fv
         exhaustive_domains += fd
     # ---- report
